@@ -899,11 +899,26 @@ func (k rangeKey) Parent() *ssa.Function         { return k.r.Parent() }
 func (k rangeKey) Referrers() *[]ssa.Instruction { return nil }
 func (k rangeKey) Pos() token.Pos                { return k.r.Pos() }
 
+// rangeCountKey keys the ghost number of keys a map range has produced so
+// far; rangeHas0Key the key set of the map when the range started.
+type rangeCountKey struct{ rangeKey }
+
+func (k rangeCountKey) Name() string   { return "visitedcount:" + k.r.Name() }
+func (k rangeCountKey) String() string { return k.Name() }
+
+type rangeHas0Key struct{ rangeKey }
+
+func (k rangeHas0Key) Name() string   { return "rangekeys0:" + k.r.Name() }
+func (k rangeHas0Key) String() string { return k.Name() }
+
 func (fr *Frame) rangeInit(in *ssa.Range, st *State, pc Term) {
 	vc := fr.vc
 	if mt, ok := in.X.Type().Underlying().(*types.Map); ok {
 		ks := vc.sortOf(mt.Key())
 		st.cells[rangeKey{in}] = Term{fmt.Sprintf("((as const %s) false)", arraySort(ks, SBool)), arraySort(ks, SBool)}
+		st.cells[rangeCountKey{rangeKey{in}}] = tZero
+		has, _, _, _, _ := fr.mapHeaps(st, in.X.Type())
+		st.cells[rangeHas0Key{rangeKey{in}}] = vc.def("rangekeys0", sel(has, fr.val(in.X)))
 		fr.vals[in] = fr.val(in.X)
 		return
 	}
@@ -940,20 +955,38 @@ func (fr *Frame) next(in *ssa.Next, st *State, pc Term) {
 	mt := rng.X.Type()
 	m := fr.val(rng.X)
 	mu := mt.Underlying().(*types.Map)
-	has, val, _, ks, _ := fr.mapHeaps(st, mt)
+	has, val, ln, ks, _ := fr.mapHeaps(st, mt)
 	visited, live := st.cells[key]
 	if !live {
 		visited = vc.fresh("visited", arraySort(ks, SBool))
 	}
+	count, cntLive := st.cells[rangeCountKey{key}]
+	has0, has0Live := st.cells[rangeHas0Key{key}]
 	okT := vc.fresh(fr.name(in)+":ok", SBool)
 	k := fr.freshTyped(fr.name(in)+":k", mu.Key(), st, pc)
 	isNil := eq(m, tZero)
 	vc.assume(pc, implies(okT, and(not(isNil), sel(sel(has, m), k), not(sel(visited, k)))))
 	qk := "(forall ((qk " + ks + ")) (=> (select (select " + has.S + " " + m.S + ") qk) (select " + visited.S + " qk)))"
 	vc.assume(pc, implies(not(okT), or(isNil, Term{qk, SBool})))
+	// (extensionality, stated for the solver) an exhausted range whose
+	// produced keys are all keys of the map has produced exactly its key set
+	qv := "(forall ((qk " + ks + ")) (=> (select " + visited.S + " qk) (select (select " + has.S + " " + m.S + ") qk)))"
+	vc.assume(pc, implies(and(not(okT), not(isNil), Term{qv, SBool}), eq(visited, sel(has, m))))
 	v := vc.def(fr.name(in)+":v", sel(sel(val, m), k))
 	vc.assume(pc, implies(okT, vc.typeFacts(v, mu.Elem(), st.wm)))
 	st.cells[key] = vc.def("visited", ite(okT, store(visited, k, tTrue), visited))
+	// a map that holds a key is not empty; as long as the key set is the one
+	// the range started with, every key is produced exactly once: the number
+	// of keys produced so far is below len(m), and equals it when the range
+	// is exhausted
+	vc.assume(pc, implies(okT, le(intLit(1), sel(ln, m))))
+	if cntLive && has0Live {
+		same := eq(sel(has, m), has0)
+		vc.assume(pc, le(tZero, count))
+		vc.assume(pc, implies(and(same, okT), lt(count, sel(ln, m))))
+		vc.assume(pc, implies(and(same, not(okT), not(isNil)), eq(count, sel(ln, m))))
+		st.cells[rangeCountKey{key}] = vc.def("visitedcount", ite(okT, add(count, intLit(1)), count))
+	}
 	fr.tuples[in] = []Term{okT, k, v}
 }
 
